@@ -228,4 +228,209 @@ Proof.
   - exact H2s2.
 Qed.
 
+(* ---------- every new doer is entered inside the window of extend() ---------- *)
+
+Definition ent a s (i : id) : Prop :=
+  exists seg e, trace s = seg ++ trace a /\ In e seg /\ e_kind e = Enter /\ e_id e = i.
+
+Record EN a s : Prop := {
+  en_tr : exists seg, trace s = seg ++ trace a;
+  en_defs : defs s = defs a;
+  en_gen : forall i, startable a i = true -> get_gen s i = get_gen a i \/ ent a s i }.
+
+Lemma ent_mono a s s' i : ent a s i -> (exists seg, trace s' = seg ++ trace s) -> ent a s' i.
+Proof.
+  intros (seg & e & Tr & Hin & Hk & Hi) (seg2 & Tr2). exists (seg2 ++ seg), e.
+  split; [now rewrite Tr2, Tr, app_assoc|]. split; [apply in_or_app; now right|]. now split.
+Qed.
+
+Lemma en_refl a : EN a a.
+Proof. split; [now exists []|reflexivity|intros; now left]. Qed.
+Lemma en_same a s s' : trace s' = trace s -> defs s' = defs s -> (forall i, get_gen s' i = get_gen s i) -> EN a s -> EN a s'.
+Proof.
+  intros Ht Hd Hg [Tr D G]. split.
+  - destruct Tr as [seg Tr]. exists seg. congruence.
+  - congruence.
+  - intros i Si. destruct (G i Si) as [E|E]; [left; now rewrite Hg|right].
+    destruct E as (seg & e & Tr' & R). exists seg, e. split; [congruence|exact R].
+Qed.
+Lemma en_done a s i d : EN a s -> EN a (set_done s i d). Proof. now apply en_same. Qed.
+Lemma en_sched a s i c : EN a s -> EN a (set_sched s i c). Proof. now apply en_same. Qed.
+Lemma en_deeds a s i c : EN a s -> EN a (set_deeds s i c). Proof. now apply en_same. Qed.
+Lemma en_oof a s : EN a s -> EN a (out_of_fuel s). Proof. now apply en_same. Qed.
+Lemma en_if a s1 s2 (c : bool) : EN a s1 -> EN a s2 -> EN a (if c then s1 else s2). Proof. destruct c; auto. Qed.
+Lemma en_emit a s k i : EN a s -> EN a (emit s k i).
+Proof.
+  intros [[seg Tr] D G]. split.
+  - eexists (_ :: seg). cbn [trace emit]. now rewrite Tr.
+  - exact D.
+  - intros j Sj. destruct (G j Sj) as [E|E]; [now left|right].
+    eapply ent_mono; [exact E|]. now eexists [_].
+Qed.
+(* a generator that is not startable now but was in [a] has been entered since *)
+Lemma en_gen_live a s j g : startable s j = false -> EN a s -> EN a (set_gen s j g).
+Proof.
+  intros Ns [Tr D G]. split; [exact Tr|exact D|].
+  intros i Si. destruct (N.eq_dec i j) as [Heq|Hne].
+  - subst i. destruct (G j Si) as [E|E]; [|right; exact E].
+    exfalso. unfold startable in *. rewrite E in Ns. congruence.
+  - rewrite gen_set_gen_other by exact Hne. destruct (G i Si) as [E|E]; [now left|right; exact E].
+Qed.
+Lemma en_start a s j : EN a s -> EN a (emit (set_gen s j (GRun 0)) Enter j) /\ ent a (emit (set_gen s j (GRun 0)) Enter j) j.
+Proof.
+  intros [[seg Tr] D G].
+  assert (Ej : ent a (emit (set_gen s j (GRun 0)) Enter j) j).
+  { eexists (_ :: seg), _. split; [cbn [trace emit set_gen]; now rewrite Tr|]. split; [now left|]. split; reflexivity. }
+  split; [|exact Ej]. split.
+  - eexists (_ :: seg). cbn [trace emit set_gen]. now rewrite Tr.
+  - exact D.
+  - intros i Si. destruct (N.eq_dec i j) as [Heq|Hne]; [subst i; now right|].
+    rewrite gen_emit, gen_set_gen_other by exact Hne. destruct (G i Si) as [E|E]; [now left|right].
+    eapply ent_mono; [exact E|]. now eexists [_].
+Qed.
+
+Lemma run_not_startable s i : running s i -> startable s i = false.
+Proof. intros [pc R]. unfold startable. now rewrite R. Qed.
+
+Definition en_at (f : nat) : Prop :=
+  (forall a s i s' r, EN a s -> gen_start tk f s i = (s', r) ->
+      EN a s' /\ (r <> GFuel -> startable a i = true -> get (defs a) i <> None -> ent a s' i)) /\
+  (forall a s i k sc pc s' r, EN a s -> running s i -> run_step tk f s i k sc pc = (s', r) -> EN a s') /\
+  (forall a s i, EN a s -> EN a (gen_close tk f s i)) /\
+  (forall a s i, EN a s -> EN a (close_own tk f s i)) /\
+  (forall a s ds, EN a s -> EN a (close_list tk f s ds)) /\
+  (forall a s sid ids s' r, EN a s -> enter_own tk f s sid ids = (s', r) -> EN a s') /\
+  (forall a s ids acc s' r acc', EN a s -> enter_local tk f s ids acc = (s', r, acc') ->
+      EN a s' /\ (r = GReturn -> forall i, In i ids -> startable a i = true -> get (defs a) i <> None -> ent a s' i)) /\
+  (forall a s c es s' r, EN a s -> run_effects tk f s c es = (s', r) -> EN a s').
+
+Lemma grow_start f s i s' r : gen_start tk f s i = (s', r) -> exists seg, trace s' = seg ++ trace s.
+Proof.
+  intro E. destruct (frame_all tk f) as (Fst & _). apply steps_trace. eapply Fst; [apply st_refl|exact E].
+Qed.
+Lemma grow_local f s ids acc s' r acc' : enter_local tk f s ids acc = (s', r, acc') -> exists seg, trace s' = seg ++ trace s.
+Proof.
+  intro E. destruct (frame_all tk f) as (_ & _ & _ & _ & _ & _ & _ & Fel & _). apply steps_trace.
+  eapply Fel; [apply st_refl|exact E].
+Qed.
+
+Lemma en_all : forall f, en_at f.
+Proof.
+  induction f as [|f IH].
+  - unfold en_at. repeat match goal with |- _ /\ _ => split end; intros;
+      try match goal with E : _ = _ |- _ => cbn in E; inversion E; subst; clear E end; cbn;
+      first [ apply en_oof; assumption
+            | split; [apply en_oof; assumption | intro Hx; try discriminate; exfalso; now apply Hx] ].
+  - destruct IH as (Ist & Irs & Icl & Ico & Ili & Ieo & Iel & Ief).
+    unfold en_at. repeat match goal with |- _ /\ _ => split end.
+    + (* gen_start *)
+      intros a s i s' r En E. rewrite gen_start_S in E.
+      destruct (startable s i) eqn:St; cbn [negb] in E.
+      2:{ fin. split; [exact En|]. intros _ Sa _. destruct (en_gen _ _ En i Sa) as [G|G]; [|exact G].
+          exfalso. unfold startable in *. rewrite G in St. congruence. }
+      destruct (get (defs s) i) as [[k sc|t0 al kids]|] eqn:D.
+      * destruct (en_start a s i En) as [En1 Ei].
+        split.
+        -- eapply Irs; [exact En1| |exact E]. exists 0%nat. apply gen_set_gen_same.
+        -- intros _ _ _. eapply ent_mono; [exact Ei|].
+           destruct (frame_all tk f) as (_ & Frs & _). apply steps_trace. eapply Frs; [apply st_refl|exact E].
+      * cbv zeta in E. destruct (en_start a s i En) as [En1 Ei].
+        set (s1 := emit (set_gen s i (GRun 0)) Enter i) in *.
+        destruct (enter_own tk f s1 i _) as [s2 r0] eqn:Ee.
+        assert (En2 : EN a s2) by (eapply Ieo; [exact En1|exact Ee]).
+        assert (R2 : running s2 i).
+        { destruct (keep_all tk f i) as (_ & _ & _ & K & _). eapply K; [|exact Ee]. exists 0%nat. apply gen_set_gen_same. }
+        assert (G2 : exists seg, trace s2 = seg ++ trace s1).
+        { destruct (frame_all tk f) as (_ & _ & _ & _ & _ & _ & Feo & _). apply steps_trace.
+          eapply Feo; [apply st_refl|exact Ee]. }
+        assert (Ei2 : ent a s2 i) by (eapply ent_mono; [exact Ei|exact G2]).
+        assert (Fin : forall s3, EN a s3 -> running s3 i -> (exists seg, trace s3 = seg ++ trace s2) ->
+                      EN a (set_gen (emit (close_own tk f s3 i) Exit i) i GDone) /\
+                      ent a (set_gen (emit (close_own tk f s3 i) Exit i) i GDone) i).
+        { intros s3 En3 R3 G3. split.
+          - apply en_gen_live; [|apply en_emit, Ico; exact En3].
+            apply run_not_startable. destruct (keep_all tk f i) as (_ & _ & K & _). now apply K.
+          - eapply ent_mono; [exact Ei2|]. destruct G3 as [seg3 T3].
+            destruct (frame_all tk f) as (_ & _ & _ & _ & Fco & _).
+            destruct (steps_trace s3 _ (Fco s3 s3 i (st_refl s3))) as [seg4 T4].
+            eexists (_ :: seg4 ++ seg3). cbn [trace set_gen emit app]. rewrite T4, T3, app_assoc. reflexivity. }
+        destruct r0; fin.
+        -- split; [apply en_gen_live; [now apply run_not_startable|exact En2]|]. intros _ _ _. exact Ei2.
+        -- split; [apply en_gen_live; [now apply run_not_startable|exact En2]|]. intros _ _ _. exact Ei2.
+        -- destruct (Fin (if kbd then s2 else emit s2 Abort i)) as [A B].
+           ++ destruct kbd; [exact En2|apply en_emit; exact En2].
+           ++ destruct kbd; exact R2.
+           ++ destruct kbd; [now exists []|now eexists [_]].
+           ++ split; [exact A|intros _ _ _; exact B].
+        -- split; [exact En2|congruence].
+      * fin. split; [exact En|]. intros _ _ Dn. rewrite <- (en_defs _ _ En) in Dn. congruence.
+    + (* run_step *)
+      intros a s i k sc pc s' r En R E. rewrite run_step_S in E. cbv zeta in E.
+      destruct (run_effects tk f s i _) as [s1 r0] eqn:Ee.
+      assert (En1 : EN a s1) by (eapply Ief; [exact En|exact Ee]).
+      assert (R1 : running s1 i).
+      { destruct (keep_all tk f i) as (_ & _ & _ & _ & _ & K & _). eapply K; eassumption. }
+      assert (N1 : startable s1 i = false) by now apply run_not_startable.
+      destruct r0; [| |destruct kbd|]; cbv beta iota zeta in E;
+        try (destruct (f_out _)); fin; try exact En1;
+        repeat first [exact En1 | exact N1 | apply en_done | apply en_emit | apply en_gen_live].
+    + (* gen_close *)
+      intros a s i En. rewrite gen_close_S.
+      destruct (get_gen s i) eqn:G; try exact En.
+      assert (Ns : startable s i = false) by (unfold startable; now rewrite G).
+      destruct (get (defs s) i) as [[k sc|t0 al kids]|]; [| |exact En].
+      * apply en_gen_live; [|apply en_emit, en_emit, en_gen_live; [exact Ns|exact En]].
+        unfold startable. rewrite !gen_emit, gen_set_gen_same. reflexivity.
+      * cbv zeta. apply en_gen_live; [|apply en_emit, Ico, en_emit, en_gen_live; [exact Ns|exact En]].
+        apply run_not_startable. destruct (keep_all tk f i) as (_ & _ & K & _). apply K.
+        exists pc. apply gen_set_gen_same.
+    + intros a s i En. rewrite close_own_S. cbv zeta. apply Ili, en_deeds. exact En.
+    + intros a s ds En. rewrite close_list_S. destruct ds as [|[|i re] r]; [exact En|now apply Ili|].
+      apply Ili, Icl. exact En.
+    + (* enter_own *)
+      intros a s sid ids s' r En E. rewrite enter_own_S in E.
+      destruct ids as [|i rest]; [fin; exact En|]. cbv zeta in E.
+      destruct (gen_start tk f _ i) as [s1 r0] eqn:Eg.
+      destruct (Ist a _ i _ _ (en_done a s i (Some false) En) Eg) as [En1 _].
+      destruct r0; fin; try exact En1.
+      * eapply Ieo; [|exact E]. apply en_deeds. exact En1.
+      * eapply Ieo; [exact En1|exact E].
+    + (* enter_local *)
+      intros a s ids acc s' r acc' En E. rewrite enter_local_S in E.
+      destruct ids as [|i rest]; [fin; split; [exact En|intros _ i []]|]. cbv zeta in E.
+      destruct (gen_start tk f _ i) as [s1 r0] eqn:Eg.
+      destruct (Ist a _ i _ _ (en_done a s i (Some false) En) Eg) as [En1 Ei].
+      destruct r0; fin.
+      * destruct (Iel a _ _ _ _ _ _ En1 E) as [En' All]. split; [exact En'|].
+        intros Hr j [Hj|Hj] Sj Dj; [subst j|now apply All].
+        eapply ent_mono; [apply Ei; [discriminate|exact Sj|exact Dj]|]. eapply grow_local; exact E.
+      * destruct (Iel a _ _ _ _ _ _ En1 E) as [En' All]. split; [exact En'|].
+        intros Hr j [Hj|Hj] Sj Dj; [subst j|now apply All].
+        eapply ent_mono; [apply Ei; [discriminate|exact Sj|exact Dj]|]. eapply grow_local; exact E.
+      * split; [apply Ili; exact En1|discriminate].
+      * split; [exact En1|discriminate].
+    + (* run_effects *)
+      intros a s c es s' r En E. rewrite run_effects_S in E.
+      destruct es as [|e rest]; [fin; exact En|].
+      destruct (negb (live s match e with EExtend t _ => t | ERemove t _ => t end)); [eapply Ief; eassumption|].
+      destruct e as [t news|t who]; cbv zeta in E.
+      * destruct (enter_local tk f s _ []) as [[s1 r0] acc] eqn:Ee.
+        destruct (Iel a _ _ _ _ _ _ En Ee) as [En1 _].
+        destruct r0; fin; try exact En1.
+        -- eapply Ief; [|exact E]. apply en_emit, en_sched. exact En1.
+        -- eapply Ief; [|exact E]. apply en_emit, en_sched. exact En1.
+      * eapply Ief; [|exact E]. apply en_emit, Ili, en_sched. exact En.
+Qed.
+
+(* the new doers that were startable when extend() was called (the doers "added")
+   each have an Enter event inside the window, when the window completes *)
+Theorem extend_enters f s t news s1 acc :
+  enter_local tk f s (new_of s t news) [] = (s1, GReturn, acc) ->
+  forall i, In i (new_of s t news) -> startable s i = true -> get (defs s) i <> None ->
+  exists seg e, trace s1 = seg ++ trace s /\ In e seg /\ e_kind e = Enter /\ e_id e = i.
+Proof.
+  intros Ee i Hi Si Di. destruct (en_all f) as (_ & _ & _ & _ & _ & _ & Iel & _).
+  destruct (Iel s s _ _ _ _ _ (en_refl s) Ee) as [_ All]. exact (All eq_refl i Hi Si Di).
+Qed.
+
 End Effects.
